@@ -596,7 +596,7 @@ def lifecycle():
     emit_nat("uringNotificationKeepsSlot", 1 if re.search(r"if self\.op_to_details\.vacant_key\(\) == key \{\s*self\.op_to_details\.insert\(details\);\s*return;", rein) else 0)
     mreap = re.search(r"fn reap_orphaned_completion\(.*?\n\}", cqp, re.S)
     reap = mreap.group(0) if mreap else ""
-    emit_nat("uringOrphanCompletionGivesBufferBack", 1 if "bm.reprovide_buffer(bid)" in reap and "pool.release_buffer(send_buf_id)" in reap
+    emit_nat("uringOrphanCompletionGivesBufferBack", 1 if re.search(r"if let Some\(bid\) = cqueue::buffer_select\(cqe_flags\) \{\s*if let Some\(bm\) = worker\.buffer_manager\.as_ref\(\) \{\s*if let Err\(e\) = bm\.reprovide_buffer\(bid\)", reap) and "pool.release_buffer(send_buf_id)" in reap
              and re.search(r"if handler_fd_peeked == ORPHANED_OP_FD \{\s*reap_orphaned_completion\(", cqp) else 0)
     tc = strip_comments(src("core/src/transport/tcp.rs"))
     emit_nat("connecterAbortIsFinal", 1 if re.search(r"Connect aborted: shutdown by system event", src("core/src/transport/tcp.rs")) and 's.contains("shutdown by")' in tc else 0)
@@ -619,6 +619,10 @@ def lifecycle():
     emit_nat("lingerDeadlineChecked", 1 if re.search(r"if let Some\(deadline\) = self\.linger_deadline \{\s*if Instant::now\(\) >= deadline", bl) else 0)
     bs = fn_body("core/src/socket/core/shutdown.rs", "start_linger_if_needed")
     emit_nat("lingerNoneHasNoDeadline", 1 if re.search(r"None => \{\s*self\.linger_deadline = None;", bs) else 0)
+    mpl = re.search(r"pub\(crate\) fn parse_linger_option\(value: &\[u8\]\) -> Result<Option<Duration>, ZmqError> \{(.*?)\n\}", strip_comments(src("core/src/socket/options.rs")), re.S)
+    pl = re.sub(r"\s+", " ", mpl.group(1)) if mpl else ""
+    emit_nat("lingerOptionParsedAsGiven", 1 if "-1 => Ok(None)," in pl and "0.. => Ok(Some(Duration::from_millis(val as u64)))," in pl
+             and pl.count("=>") == 3 else 0)
     emit_nat("lingerZeroDeadlineNow", 1 if re.search(r"Some\(d\) if d\.is_zero\(\) => \{\s*self\.linger_deadline = Some\(Instant::now\(\)\);", bs) else 0)
     emit_nat("lingerTimedDeadline", 1 if re.search(r"Some\(d\) => \{\s*self\.linger_deadline = Some\(Instant::now\(\) \+ d\);", bs) else 0)
     bi = fn_body("core/src/socket/core/shutdown.rs", "initiate_core_shutdown")
